@@ -19,7 +19,7 @@ import ast
 
 from ..engine.model import AnalysisError, src, walk_own
 from ..engine.flow import Flow
-from ..engine.inline import Inliner
+from ..engine.inline import Inliner, norm_text, range_triple
 from ..engine.typestate import EventDomain
 from .armstate import ArmChecker, ARM, self_field
 from .common_ops import pinv_cutoff
@@ -116,54 +116,45 @@ def check(model, rep):
     rep.ob('R06.2', jb, 'JacobianBody(self.screw_list_body, theta)', ok,
            'body Jacobian is not built from the BODY screws: ' + (src(r[0].value) if r else '?'))
     jl = M(arm, 'jacobianLink')
-    asg = assigns_of(jl)
     ip, tp = jl.params[1], jl.params[2]
-    r = returns_of(jl)
-    ok = False
-    msg = 'jacobianLink is not hstack(Ad(inv(FKLink(theta,i))) @ JacobianSpace(prefix i+1), zero padding)'
-    if len(r) == 1 and isinstance(r[0].value, ast.Call) and src(r[0].value.func) in ('np.hstack', 'numpy.hstack') and r[0].value.args:
-        tup = r[0].value.args[0]
-        if isinstance(tup, (ast.Tuple, ast.List)) and len(tup.elts) == 2:
-            prod = resolve(tup.elts[0], asg)
-            pad = resolve(tup.elts[1], asg)
-            if isinstance(prod, ast.BinOp) and isinstance(prod.op, ast.MatMult):
-                adj = resolve(prod.left, asg)
-                js = resolve(prod.right, asg)
-                want_adj = 'self.FKLink(%s, %s).inv().adjoint()' % (tp, ip)
-                want_js = ['self.screw_list[0:6, 0:%s + 1]' % ip, '%s[0:%s + 1]' % (tp, ip)]
-                want_pad = 'np.zeros((6, len(%s) - (%s + 1)))' % (tp, ip)
-                a_ok = src(adj) == want_adj
-                j_ok = is_call(js, 'JacobianSpace') and [src(a) for a in js.args] == want_js
-                p_ok = src(pad) == want_pad
-                ok = a_ok and j_ok and p_ok
-                if not a_ok:
-                    msg = 'change of frame is %s, expected %s' % (src(adj), want_adj)
-                elif not j_ok:
-                    msg = 'prefix Jacobian is %s, expected JacobianSpace(%s)' % (src(js), ', '.join(want_js))
-                elif not p_ok:
-                    msg = 'zero padding is %s, expected %s' % (src(pad), want_pad)
-    rep.ob('R06.2', jl, 'Ad(inv(FKLink(theta, i))) @ JacobianSpace(prefix i+1) | zeros', ok, msg)
+    il = Inliner(jl)
+    r = il.returns()
+    A_ = 'self.FKLink(%s, %s).inv().adjoint()' % (tp, ip)
+    J_ = 'fmr.JacobianSpace(self.screw_list[0:6, 0:%s + 1], %s[0:%s + 1])' % (ip, tp, ip)
+    Z_ = 'np.zeros((6, len(%s) - (%s + 1)))' % (tp, ip)
+    want = ['np.hstack((%s @ %s, %s))' % (A_, J_, Z_), 'np.concatenate((%s @ %s, %s), axis=1)' % (A_, J_, Z_), 'np.c_[%s @ %s, %s]' % (A_, J_, Z_)]
+    ok = len(r) == 1 and il.same(r[0].value, want)
+    rep.ob('R06.2', jl, 'Ad(inv(FKLink(theta, i))) @ JacobianSpace(prefix i+1) | zeros', ok,
+           'jacobianLink returns %s; expected hstack(Ad(inv(FKLink(theta,i))) @ JacobianSpace(prefix i+1), zero padding)' % (il.text(r[0].value)[:260] if r else '?'))
     je = M(arm, 'jacobianEETrans')
-    asg = assigns_of(je)
-    r = returns_of(je)
+    il = Inliner(je)
+    r = il.returns()
     ok = False
-    if len(r) == 1 and isinstance(r[0].value, ast.BinOp) and isinstance(r[0].value.op, ast.MatMult):
-        left, right = r[0].value.left, resolve(r[0].value.right, asg)
-        lv = None
-        if is_call(left, 'adjoint') and is_call(left.func.value, 'inv') and isinstance(left.func.value.func.value, ast.Name):
-            lv = left.func.value.func.value.id
-        zeroed = any(isinstance(n, ast.Assign) and isinstance(n.targets[0], ast.Subscript) and src(n.targets[0].value) == lv
-                     and src(n.targets[0].slice) == '3:6' for n in walk_own(je.node))
-        from_fk = lv in asg and 'self.FK(%s)' % je.params[1] in src(asg[lv][0])
-        ok = lv is not None and zeroed and from_fk and src(right) == 'self.jacobian(%s)' % je.params[1]
+    got = il.text(r[0].value) if r else '?'
+    if len(r) == 1:
+        t = il.tree(r[0].value)
+        if isinstance(t, ast.BinOp) and isinstance(t.op, ast.MatMult) and norm_text(t.right) == 'self.jacobian(%s)' % je.params[1]:
+            left = il.expand(r[0].value.left) if isinstance(r[0].value, ast.BinOp) else il.expand(r[0].value)
+            if not isinstance(r[0].value, ast.BinOp):
+                ex = il.expand(r[0].value)
+                left = ex.left if isinstance(ex, ast.BinOp) else None
+            if left is not None and is_call(left, 'adjoint') and is_call(left.func.value, 'inv') and isinstance(left.func.value.func.value, ast.Name):
+                lv = left.func.value.func.value.id
+                defs_ = [norm_text(d) for d in il.defs(lv)]
+                zeroed = any(isinstance(n, ast.Assign) and isinstance(n.targets[0], ast.Subscript) and src(n.targets[0].value) == lv
+                             and norm_text(n.targets[0].slice) == '3:6' and norm_text(n.value) in ('np.zeros(3)', 'np.zeros((3))', 'np.zeros((3,1))', '0', '[0,0,0]')
+                             for n in walk_own(je.node))
+                from_fk = bool(defs_) and all(d in ('self.FK(%s)' % je.params[1], 'self.FK(%s).copy()' % je.params[1]) for d in defs_)
+                ok = zeroed and from_fk
     rep.ob('R06.2', je, 'Ad(inv(tool pose, rotation zeroed)) @ jacobian(theta)', ok,
-           'tool-aligned Jacobian is not the space Jacobian moved to the translated (unrotated) tool frame')
+           'tool-aligned Jacobian is not the space Jacobian moved to the translated (unrotated) tool frame: ' + got[:200])
     ve = M(robot, 'velocityAtEndEffector')
-    asg = assigns_of(ve)
-    r = returns_of(ve)
-    v = resolve(r[0].value, asg) if r else None
-    ok = isinstance(v, ast.BinOp) and isinstance(v.op, ast.MatMult) and src(v.left).startswith('self.jacobian(') and ve.params[1] in src(v.right)
-    rep.ob('R06.2', ve, 'jacobian(...) @ joint rates', bool(ok), 'tool twist is not jacobian @ rates')
+    il = Inliner(ve)
+    r = il.returns()
+    v = il.expand(r[0].value) if r else None
+    ok = isinstance(v, ast.BinOp) and isinstance(v.op, ast.MatMult) and norm_text(v.left).startswith('self.jacobian(') and ve.params[1] in norm_text(v.right) \
+        and 'jacobian' not in norm_text(v.right)
+    rep.ob('R06.2', ve, 'jacobian(...) @ joint rates', bool(ok), 'tool twist is not jacobian @ rates: ' + (norm_text(v)[:120] if v is not None else '?'))
 
     # ---------------------------------------------------------------- R06.3
     rep.rule('R06.3', 'statics 2x2 table: forward = J^T @ wrench, inverse = pinv(J^T) @ forces; Body variants use jacobianBody; '
@@ -173,7 +164,9 @@ def check(model, rep):
     for name, jac, inverse in table:
         fi = M(robot, name)
         arg = fi.params[1]
-        exprs = [n.value for n in walk_own(fi.node) if isinstance(n, (ast.Assign, ast.Return)) and n.value is not None]
+        from ..engine import peval as _pe
+        flat = _pe.flatten({n_: f_.node for n_, f_ in robot.methods.items()}, fi.node, depth=2, impure=True)
+        exprs = [n.value for n in ast.walk(flat) if isinstance(n, (ast.Assign, ast.Return)) and n.value is not None]
         found = None
         for e in exprs:
             for sub in ast.walk(e):
@@ -181,7 +174,10 @@ def check(model, rep):
                     found = sub
         ok, msg = False, 'no `<matrix> @ %s` expression' % arg
         if found is not None:
-            lasg = {k: v for k, v in assigns_of(fi).items()}
+            lasg = {}
+            for n_ in ast.walk(flat):
+                if isinstance(n_, ast.Assign) and len(n_.targets) == 1:
+                    lasg.setdefault(src(n_.targets[0]), []).append(n_.value)
             L = resolve(found.left, lasg)
             if inverse:
                 inner = L.args[0] if (isinstance(L, ast.Call) and src(L.func) in ('np.linalg.pinv', 'ling.pinv', 'np.linalg.inv') and L.args) else None
@@ -260,8 +256,8 @@ def check(model, rep):
                 '(self.jacobian(%s)[0:6,0:I].T@CARRY)[-1]' % th_p, '(self.jacobian(%s)[:,0:I].T@CARRY)[-1]' % th_p, '(self.jacobian(%s)[0:6,:I].T@CARRY)[-1]' % th_p)
         rep.ob('R06.4', lm, 'tau[i-1] = last entry of jacobian[0:6, 0:i].T @ carry', ok_t,
                'joint torque i-1 is not taken from the prefix Jacobian 0:i applied to the accumulated wrench (%s)' % got_t, line=lp.lineno)
-        it = src(lp.iter).replace(' ', '')
-        rep.ob('R06.4', lm, 'loop from the last link to the first', it == 'range(self.num_dof,0,-1)', 'loop range is %s' % src(lp.iter), line=lp.lineno)
+        rep.ob('R06.4', lm, 'loop from the last link to the first', range_triple(lp.iter) == (('self.num_dof', 0), ('', 0), -1),
+               'loop range is %s' % src(lp.iter), line=lp.lineno)
         # initial torques from the tip wrench alone
         ini = [n for n in lm.body() if isinstance(n, ast.Assign) and n.lineno < lp.lineno and isinstance(n.value, ast.BinOp)
                and isinstance(n.value.op, ast.MatMult) and src(n.value.right) == lm.params[1]]
